@@ -204,7 +204,8 @@ C02_ITEMS = [('just', [A]), ('oneof', [A, B]), ('any',), ('then', ('just', [A]),
              ('or', ('just', [A, B]), ('just', [A])), ('map', ('tag', 1), ('just', [A])),
              ('filter', ('tokis', A), ('any',)), ('noneof', [COMMA])]
 C02_NULLABLE_ITEMS = [('empty',), ('ornot', ('just', [A])), ('rewind', ('just', [A]))]
-C02_SEPS = [('just', [COMMA]), ('oneof', [COMMA, B]), ('then', ('just', [COMMA]), ('ornot', ('just', [COMMA])))]
+C02_SEPS = [('just', [COMMA]), ('just', [COMMA, COMMA]), ('oneof', [COMMA, B]), ('then', ('just', [COMMA]), ('just', [B])),
+            ('then', ('just', [COMMA]), ('ornot', ('just', [COMMA])))]
 C02_ALPHA = [A, COMMA, B]
 
 
@@ -239,7 +240,7 @@ def c02_consumers(it, rng=None):
             ('foldl', 'fpair', ('empty',), it), ('foldr', 'fpair', it, ('empty',)),
             ('foldlw', ('empty',), it), ('foldrw', it, ('empty',)),
             ('collect', 'vec', ('enum', it)), ('foldl', 'fpair', ('empty',), ('enum', it))]
-    if it[0] in ('rep', 'sep'):
+    if it[0] in ('rep', 'sep', 'cfgrep', 'trycfgrep'):
         cons.append(('iterp', it))
     return [('then', c, rest) for c in cons]
 
